@@ -49,8 +49,11 @@ ASSUMPTIONS = [
   "raiseEvent, the return value of a class-form raise without listeners, "
   "class-form raise of an undeclared type without listeners (None or "
   "ReventError), handlers after one that raised under raiseEventNoErrors",
-  "handlers never raise ReventError themselves and never set event.halt "
-  "directly (no pox component does)",
+  "handlers never raise ReventError themselves; a handler that sets "
+  "event.halt itself also returns a value (False / EventRemove / "
+  "EventContinue) -- setting the flag and returning None is left out "
+  "(revent does not look at the flag then, and the statement does not say "
+  "it should)",
   "unsubscribe operations only name subscriptions that exist or existed on "
   "that source (removing from a type that never had a listener is not "
   "exercised); clearHandlers is not exercised",
@@ -76,6 +79,7 @@ REAL = ["pox.lib.revent.revent EventMixin (raiseEvent, raiseEventNoErrors, "
 STUBBED = ["event sources, event classes, sinks and handlers (generated)"]
 EXPECT_PROBES = ["reentrant_subscribe", "reentrant_subscribe_prio",
                  "reentrant_unsubscribe", "reentrant_raise", "halt",
+                 "halt_via_event_flag",
                  "weak_owner_died", "once_fired", "noerrors_exception",
                  "plain_exception", "undeclared_rejected", "ret_remove",
                  "autobind", "unsub_handler", "unsub_eid", "unsub_tuple",
@@ -89,7 +93,10 @@ K_WEAKRM = "C05-weak-remove-by-handler"
 
 PRIOS = [-1, 0, 0, 1, 5, None]
 RETS = [(8, "none"), (2, "true"), (2, "false"), (2, "halt"), (2, "remove"),
-        (1, "haltremove"), (1, "empty"), (1, "cont"), (2, "exc")]
+        (1, "haltremove"), (1, "empty"), (1, "cont"), (2, "exc"),
+        # halting through the event object: the handler sets event.halt and
+        # returns something that is not itself a halt
+        (1, "flag_false"), (1, "flag_remove"), (1, "flag_cont")]
 SINK_METHODS = ["m0", "m1", "_handle_EvA", "_handle_EvB", "_handle_p_EvA",
                 "_handle_p_EvB"]
 SUB_HOWS = [(6, "cls"), (2, "name"), (2, "bynamekw"), (2, "al_type"),
@@ -268,8 +275,9 @@ class Delivery(object):
 
 
 RETMAP = {"none": None, "true": True, "false": False, "exc": None}
-HALTS = ("true", "halt", "haltremove", "empty")
-REMOVES = ("false", "remove", "haltremove")
+HALTS = ("true", "halt", "haltremove", "empty", "flag_false", "flag_remove",
+         "flag_cont")
+REMOVES = ("false", "remove", "haltremove", "flag_false", "flag_remove")
 GONE_CLASS = {"once": "once/invoked-again",
               "ret": "removed/self-removed-invoked-again",
               "unsub": "removed/unsubscribed-invoked-again",
@@ -285,7 +293,8 @@ class World(object):
     self.R = R
     RETMAP.update(halt=R.EventHalt, remove=R.EventRemove,
                   haltremove=R.EventHaltAndRemove, empty=(),
-                  cont=R.EventContinue)
+                  cont=R.EventContinue, flag_false=False,
+                  flag_remove=R.EventRemove, flag_cont=R.EventContinue)
     self.plan = plan
     self.known = known
     self.known_hit = set()
@@ -1023,6 +1032,9 @@ class World(object):
             self.do_step(do, D.depth + 1, h)
         if v == "exc":
           raise Boom()
+        if v.startswith("flag_"):
+          e.halt = True
+          self.probe("halt_via_event_flag")
     except Boom:
       X.executing -= 1
       D.raised = X
